@@ -12,6 +12,7 @@ import ALV.Lemmas.C18Round
 import ALV.Lemmas.C18Norm
 import ALV.Lemmas.C18Surj
 import ALV.Lemmas.C18Res
+import ALV.Model.C18Riff
 import ALV.Common.Audit
 
 namespace ALV.Props.C18
@@ -463,6 +464,74 @@ theorem leElem_spellings (strict : Bool) (w : Nat) (v : Int) (b : Bool) (x : Flo
       ∧ leElem strict .d (.frac x) = leElem strict .d (.flt x)
       ∧ leElem strict .f (.frac x) = leElem strict .f (.flt x) :=
   ⟨rfl, rfl, rfl, rfl, rfl, rfl, rfl, rfl⟩
+
+/-! ## laziness of the chunk generators (endless sources) -/
+
+/-- **C18.26** one whole block in, one chunk out: for a sequence that starts with `size` items the
+first chunk is the packed block (or the generator stops at the item that cannot be packed) and what
+follows are the chunks of the REST — whatever the rest is.  By induction the first `k` chunks
+depend on the first `k·size` items only, which is what taking `k` chunks from an endless source
+observes; both strategies (C18.10). -/
+theorem chunks_block_step (order : Order) (le : α → Except ε Bytes) (size : Nat) (hs : 0 < size) (pad : α)
+    (blk rest : List α) (h : blk.length = size) :
+    chunksStruct order le size pad (blk ++ rest) =
+      match packSeq (encOrder order le) blk with
+      | .error e => ⟨[], some e⟩
+      | .ok b => (chunksStruct order le size pad rest).cons b := by
+  rw [chunksStruct_eq_spec order le size hs pad (blk ++ rest), chunksStruct_eq_spec order le size hs pad rest]
+  unfold chunksSpec
+  have hp : padded size pad (blk ++ rest) = blk ++ padded size pad rest := by
+    unfold padded
+    rw [List.length_append, h, padLen_add, List.append_assoc]
+  rw [hp, splitEvery_cons_block size hs blk _ h, genMap]
+  cases packSeq (encOrder order le) blk <;> rfl
+
+example : (chunksStruct .little (packIntLE 1) 2 0 ([1, 2] ++ [3, 4, 5])).out
+    = [1, 2] :: (chunksStruct .little (packIntLE 1) 2 0 [3, 4, 5]).out := by rfl
+
+/-! ## the header (`rate`, `channels`, `bits` mirror the header) -/
+
+/-- **C18.27** `bits` is `8 · sampwidth` with `sampwidth = ⌈header bits / 8⌉`: for a header width that
+is a multiple of 8 — the four widths of the property — `bits` IS the header field; any other width
+is rounded up to the next multiple of 8 (observed on the real code: a 12-bit header gives `bits = 16`). -/
+theorem bits_mirror_header (hb : Nat) :
+    (8 ∣ hb → 8 * headerSampwidth hb = hb)
+      ∧ hb ≤ 8 * headerSampwidth hb ∧ 8 * headerSampwidth hb < hb + 8 := by
+  unfold headerSampwidth
+  refine ⟨fun ⟨k, hk⟩ => by omega, by omega, by omega⟩
+
+example : headerSampwidth 24 = 3 ∧ headerSampwidth 12 = 2 ∧ (wavStream ⟨2, headerSampwidth 12, 8000, []⟩ true : WavObs Rat).bits = 16 := by
+  decide
+
+/-- **C18.28** a file shorter than the 8 bytes of a RIFF header is refused with EOFError, and a file
+whose first four bytes are not `RIFF` with wave.Error — before anything else is looked at. -/
+theorem riff_refuses (file : Bytes) :
+    (file.length < 8 → parseRiff file = .error .eof)
+      ∧ (8 ≤ file.length → file.take 4 ≠ idRIFF → parseRiff file = .error .waveError) := by
+  refine ⟨fun h => ?_, fun h hne => ?_⟩
+  · unfold parseRiff
+    by_cases h4 : (file.take 4).length < 4
+    · rw [if_pos h4]
+    · rw [if_neg h4, if_pos (by simp only [List.length_take, List.length_drop]; omega)]
+  · unfold parseRiff
+    rw [if_neg (by simp only [List.length_take]; omega),
+      if_neg (by simp only [List.length_take, List.length_drop]; omega), if_pos hne]
+
+/-- non-vacuity and the reader at work: a stereo 16-bit file with a LIST chunk of odd size before
+`fmt ` and another chunk after `data` is read back exactly (header fields and data chunk) -/
+example : parseRiff (buildRiff [(([0x4C, 0x49, 0x53, 0x54] : Bytes), [1, 2, 3])] [] [(([0x69, 0x64, 0x33, 0x20] : Bytes), [9])]
+    2 8000 16 [1, 0, 2, 0, 0xFF, 0x7F, 0, 0x80]) = .ok ⟨2, 2, 8000, [1, 0, 2, 0, 0xFF, 0x7F, 0, 0x80]⟩ := by rfl
+
+-- PENDING
+/-- every well-formed file is read back exactly: any extra chunks (names other than `fmt ` and `data`)
+before `fmt `, between `fmt ` and `data`, after `data`, odd sizes padded.  Checked on every generated
+file by the tie (the driver parses the bytes the real `wave` module is given); not proved. -/
+def riff_parse_build_PENDING : Prop :=
+  ∀ (pre mid post : List (Bytes × Bytes)) (channels rate bits : Nat) (data : Bytes),
+    (∀ c ∈ pre ++ mid, c.1.length = 4 ∧ c.1 ≠ idFmt ∧ c.1 ≠ idData) → (∀ c ∈ post, c.1.length = 4) →
+    0 < channels → channels < 2 ^ 16 → rate < 2 ^ 32 → 0 < bits → bits < 2 ^ 16 →
+    (buildRiff pre mid post channels rate bits data).length < 2 ^ 32 →
+    parseRiff (buildRiff pre mid post channels rate bits data) = .ok ⟨channels, headerSampwidth bits, rate, data⟩
 
 end ALV.Props.C18
 
